@@ -44,7 +44,7 @@ def build_cases(ctx, n: int) -> list[dict]:
     for i in range(-1, n):
         r = rng(f"C06:{i}")
         o = gs.Opts(mainstream=True, always_opid=True, max_ops=3, enum_params=False, formats=("date-time", "date"),
-                    default_response=True, error_responses=True, streaming=(i % 5 == 0))
+                    default_response=True, error_responses=True, streaming=(i % 5 == 0), component_responses=(i % 2 == 1), error_only_ops=True)
         doc = gs.gen_spec(r, o) if i >= 0 else WITNESS_DOC   # case -1: the recorded findings' witness document
         calls = []
         for path, m, op, pl in opsrig.ops_of(doc):
